@@ -128,13 +128,28 @@ class SchemaField:
         if "." in value and "%S" in format and "%f" not in format:
             format = f"{format}.%f"
 
+        calendar_value = value
+        if format.startswith("%Y") and value.startswith("0000"):
+            # YYYY = 0000-9999, but python has no year 0 (leap year, as 2000)
+            calendar_value = "2000" + value[4:]
+        if "%S" in format:
+            # SS = 00-60, python has no leap second
+            calendar_value = re.sub(
+                r"23:59:60(?=$|\.)", "23:59:59", calendar_value, count=1
+            )
+
         try:
-            dtm.datetime.strptime(value, format)
+            dtm.datetime.strptime(calendar_value, format)
         except Exception as exc:
             return str(exc)
 
-        # strptime() is too tolerant (unpadded parts, spaces, non ASCII digits)
-        layout = re.escape(format).replace("%Y", "[0-9]{4}").replace("%f", "[0-9]{1,6}")
+        # strptime() is too tolerant (unpadded parts, spaces, non ASCII digits),
+        #   fraction of a second is sss (milliseconds) or ssssss
+        layout = (
+            re.escape(format)
+            .replace("%Y", "[0-9]{4}")
+            .replace("%f", "([0-9]{3}|[0-9]{6})")
+        )
         layout = re.sub("%[mdHMS]", "[0-9]{2}", layout)
         if not re.fullmatch(layout, value, re.ASCII):
             return f"value does not match fixed layout {format}"
